@@ -58,7 +58,7 @@ static void do_kickseq()
 //  * the grids are built with the filling pattern <fill> and the data are then written explicitly (getData()), so a bucket
 //    the pattern declares empty may hold charge;
 //  * what the input grid caches besides its data (bunch / energy profile, integral, filling, moments) dates from an EARLIER
-//    state - the data with two of every three columns and rows emptied - as it does for grid_t2 / grid_t3 in main(),
+//    state - the data with two of every three columns and rows and every second bunch emptied - as it does for grid_t2 / grid_t3 in main(),
 //    whose caches are never refreshed after set-up;
 //  * the target grid holds earlier charge (3.25 in every cell);
 //  * the interpolation is constructed with the given clamp flag (the CPU path ignores it: Gen_KickLoop reads no _clamp).
@@ -80,8 +80,8 @@ static void do_kickp()
     for (auto& v : data) v = nextf();
     // caches of an earlier state
     for (size_t i = 0; i < tot; i++) {
-        const unsigned x = (i / n) % n, y = i % n;
-        in->getData()[i] = (x % 3 == 0 && y % 3 == 0) ? data[i] : 0;
+        const unsigned b = i / ((size_t)n * n), x = (i / n) % n, y = i % n;
+        in->getData()[i] = (b % 2 == 0 && x % 3 == 0 && y % 3 == 0) ? data[i] : 0;
     }
     in->updateXProjection(); in->updateYProjection(); in->integrate();
     for (size_t i = 0; i < tot; i++) in->getData()[i] = data[i];
